@@ -94,9 +94,16 @@ class HPS(Harness):
             res = U[keep]
             return res.astype(float) if eng.concrete else res.view(SymArray)
 
-        st = {"pybads.bads.bads": dict(acq_fcn_lcb=acq, erfc=erfc_stub,
-                                       local_gp_fitting=lambda gp_, *a: (gp_, 1),
-                                       add_and_update_gp=lambda fl_, gp_, *a: gp_)}
+        gp_fit_calls, gp_add_calls = [], []
+
+        def lgf(gp_, current_point, *a):
+            gp_fit_calls.append(snap(np.asarray(_raw(current_point))))
+            return gp_, 1
+
+        def aug(fl_, gp_, x_new, y_new, sd_new=None, options=None):
+            gp_add_calls.append((snap(np.asarray(_raw(x_new))), y_new, sd_new))
+            return gp_
+        st = {"pybads.bads.bads": dict(acq_fcn_lcb=acq, erfc=erfc_stub, local_gp_fitting=lgf, add_and_update_gp=aug)}
         if p.get("cc", "real") == "box":
             st["pybads.bads.bads"]["contraints_check"] = cc_box
         rb = Rebinder(eng.concrete, stubs=stubs(**st))
@@ -308,4 +315,13 @@ class HPS(Harness):
         for a in range(n):
             for b in range(a):
                 out.ob("poll_points_pairwise_distinct", O.Not(O.rows_eq(us[a], us[b], 0.0)))
+        # C15 at the call sites: the local GP is re-centred on the incumbent, and (noisy modes) updated with exactly the new observation
+        for cp in gp_fit_calls:
+            out.ob("gp_recentred_on_incumbent", O.rows_eq(cp, u_pre, 0.0))
+        if level > 0:
+            out.ob("gp_updated_once_per_observation", len(gp_add_calls) == n)
+            for j in range(min(n, len(gp_add_calls))):
+                xa, ya, sa = gp_add_calls[j]
+                ok_sd = (sa is None) if level == 1 else (sa is not None and O.truth(O.eq(sa, sds[j], 0.0)) is not False and O.eq(sa, sds[j], 0.0))
+                out.ob("gp_updated_with_the_new_observation", O.And(O.rows_eq(xa, us[j], 0.0), O.eq(ya, ys[j], 0.0), ok_sd))
         return out
